@@ -351,6 +351,98 @@ def write_replay(prop, payload):
     return path
 
 
+# ---------------------------------------------------------------------------------------------
+# source-line coverage of the modelled headers under the harness (part of the tie: a line of the
+# header that no script executes is code the trace-acceptance check has never compared with the model)
+# ---------------------------------------------------------------------------------------------
+
+def coverage_check(cname, c, seed):
+    """returns (summary dict or None, list of 'file:line: text' never executed and not allow-listed)"""
+    hdrs = c.get("cov_headers")
+    if not hdrs:
+        return None, []
+    import shutil
+    src = os.path.join(HARN, "clients", c["client"] + ".cpp")
+    deps = [src] + [os.path.join(HARN, f) for f in sorted(os.listdir(HARN)) if f.endswith((".hpp", ".cpp"))]
+    key = tree_hash(deps) + "-s%d" % seed
+    d = os.path.join(CACHE, "cov", cname)
+    res_file = os.path.join(d, "result.json")
+    with Lock("cov-" + cname):
+        if os.path.exists(res_file):
+            try:
+                r = json.load(open(res_file))
+                if r.get("key") == key:
+                    return r["summary"], r["missing"]
+            except ValueError:
+                pass
+        shutil.rmtree(d, ignore_errors=True)
+        os.makedirs(d)
+        tap = c.get("tap", False)
+        rt = os.path.join(d, "vrt.o")
+        rc, out = sh(["g++", "-std=c++17", "-O1", "-g", "-c", os.path.join(HARN, "vrt.cpp"), "-o", rt])
+        if rc != 0:
+            return dict(error=out[-1500:]), ["coverage build failed (vrt)"]
+        objs = [rt]
+        flags = ["-O0", "--coverage"] + list(c.get("flags", ()))
+        if tap:
+            tp = os.path.join(d, "vtap.o")
+            rc, out = sh(["g++", "-std=c++17", "-O1", "-g", "-c", os.path.join(HARN, "vtap.cpp"), "-o", tp])
+            if rc != 0:
+                return dict(error=out[-1500:]), ["coverage build failed (vtap)"]
+            objs.append(tp)
+            flags.append("-fsanitize=thread")
+        obj = os.path.join(d, "c.o")
+        exe = os.path.join(d, "c")
+        cxx = [x for x in CXX if x != "-O1"]
+        rc, out = sh(cxx + flags + ["-include", os.path.join(HARN, "vshim.hpp"), "-c", src, "-o", obj], timeout=900)
+        if rc != 0:
+            return dict(error=out[-1500:]), ["coverage build failed:\n" + out[-1500:]]
+        rc, out = sh(["g++", obj] + objs + ["-o", exe, "-pthread", "--coverage"], timeout=600)
+        if rc != 0:
+            return dict(error=out[-1500:]), ["coverage link failed:\n" + out[-1500:]]
+        ndirected = int(subprocess.run([exe, "--count-directed"], stdout=subprocess.PIPE, text=True).stdout.strip() or "0")
+        nd = c.get("directed_runs", 4)
+        run_client(exe, ["--directed", "--runs", str(nd), "--seed", str(seed)], ndirected * nd)
+        nr = c.get("cov_runs", 200)
+        run_client(exe, ["--runs", str(nr), "--seed", str(seed * 131), "--size", "1"], nr)
+        run_client(exe, ["--runs", str(nr // 2), "--seed", str(seed * 131 + 7), "--size", "2"], nr // 2)
+        sh(["gcov", "-p", "-o", d, obj], cwd=d, timeout=600)
+        allow = [re.compile(a) for a in c.get("cov_allow", [])]
+        missing = []
+        total = 0
+        hit = 0
+        for h in hdrs:
+            want = os.path.join(REPO, h).replace("/", "#") + ".gcov"
+            path = os.path.join(d, want)
+            if not os.path.exists(path):
+                missing.append("%s: no coverage data (header not compiled into the client?)" % h)
+                continue
+            for l in open(path, errors="replace"):
+                parts = l.split(":", 2)
+                if len(parts) < 3:
+                    continue
+                cnt, ln, text = parts[0].strip(), parts[1].strip(), parts[2].rstrip("\n")
+                if cnt == "-" or ln == "0":
+                    continue
+                total += 1
+                if cnt in ("#####", "=====") or cnt.rstrip("*") == "0":
+                    if any(a.search(text) for a in allow):
+                        continue
+                    missing.append("%s:%s: %s" % (h, ln, text.strip()))
+                else:
+                    hit += 1
+        summary = dict(headers=hdrs, lines_instrumented=total, lines_executed=hit, lines_missing=len(missing),
+                       runs=ndirected * nd + nr + nr // 2)
+        json.dump(dict(key=key, summary=summary, missing=missing), open(res_file, "w"))
+        for f in os.listdir(d):
+            if f.endswith((".gcov", ".gcda", ".gcno", ".o")) or f == "c":
+                try:
+                    os.remove(os.path.join(d, f))
+                except OSError:
+                    pass
+        return summary, missing
+
+
 def explore(prop, tier, seed, comp_names, t0):
     """run the harness for each component of the property; returns (stats, problems)
     problems: list of dict(kind, component, detail, run) where kind in
@@ -417,6 +509,13 @@ def explore(prop, tier, seed, comp_names, t0):
         if summary.get("missing"):
             problems.append(dict(kind="coverage", component=cname, detail="model edges never exercised: " + " ".join(summary["missing"]),
                                  run=None))
+        csum, cmiss = coverage_check(cname, c, seed)
+        if csum is not None:
+            cs["source_coverage"] = csum
+        if cmiss:
+            problems.append(dict(kind="coverage", component=cname,
+                                 detail="header lines never executed by the harness (code the tie has not compared with the model): "
+                                        + " | ".join(cmiss[:12]), run=None))
         if time.time() - t0 > 3000:
             break
     return stats, problems
